@@ -109,4 +109,15 @@ theorem fctx_put_count_src : fctx_put_count = "1" := by decide
 theorem cr_put_count_src : cr_put_count = "1" := by decide
 theorem qlog_buf_put_count_src : qlog_buf_put_count = "1" := by decide
 
+/-! ### Shared long-lived messages are only read (`ro` of `shared_readonly_interleaving_irrelevant`)
+
+A cache hit clones the message of the item and sets the reply data (ID, question, RD/CD, Rcode) on the
+clone; the simple cache builds a new message and copies every record; the hash-prefix filter caches the
+matched name, not the result, and constructs the result anew for every request.
+(`shared_write_then_clone_counterexample`: what a reply set on the item before the clone does.) -/
+theorem ecs_hit_calls_src : ecs_hit_calls = "cloner.Clone,resp.SetRcode,setRespAD" := by decide
+theorem ecs_hit_clone_arg_src : ecs_hit_clone_arg = "item.msg" := by decide
+theorem simple_hit_calls_src : simple_hit_calls = "msg.SetReply,dns.Copy,dns.Copy,dns.Copy" := by decide
+theorem hashprefix_hit_return_src : hashprefix_hit_return = "f.filteredResult(req, item.matched, fam)" := by decide
+
 end Agd.Tie.C07
